@@ -103,7 +103,7 @@ def alphabet(kind, tier):
         return [(c, (v,)) for v in vals] + [(m, (v,)) for m in ("min", "max") for v in bounds]
     if kind == "float":
         # 1.46 / 1.54 round to 1.5 at precision 1: a bound of 1.5 lies between value and grid point
-        vals = [1.5, 0.0, float("inf"), 1, "x", None, 1e308, 1.46, 1.54] \
+        vals = [1.5, 0.0, float("inf"), 1, "x", None, 1e308, 1.46, 1.54, float("nan")] \
             + ([float("-inf"), -0.0, 2.675] if T else [])
         bounds = [0.15, 1.5, 2.5, 1, None, "x", E] + ([float("inf"), -1.0] if T else [])
         precs = [1, 2, 15, 16, 0, -1, True, 1.5, "x", None]
